@@ -34,7 +34,7 @@ GNext ==
   \/ fam = "root" /\ \E f \in GFams : fam' = f /\ x' = <<>>
   \/ fam = "snssai" /\ x = <<>> /\ \E s \in 0..255, d \in 1..Len(SdG) : x' = <<s, d>> /\ UNCHANGED fam
   \/ fam = "snssaiwire" /\ x = <<>> /\ \E s \in {0, 1, 255} : \E v \in SnssaiForms(s) : Len(v.hsst) = 1 /\ x' = <<v>> /\ UNCHANGED fam
-  \/ fam = "nssai" /\ x = <<>> /\ \E s \in Seqs(1..5, 2) : x' = <<s>> /\ UNCHANGED fam
+  \/ fam = "nssai" /\ x = <<>> /\ \E s \in Seqs(1..5, IF Big THEN 4 ELSE 2) : x' = <<s>> /\ UNCHANGED fam
   \/ fam = "nssai" /\ x = <<>> /\ \E n \in 3..8, r \in 0..4 : x' = <<[i \in 1..n |-> ((i + r) % 5) + 1]>> /\ UNCHANGED fam
   \/ fam = "nssai" /\ x = <<>> /\ \E n \in 1..8, k \in 1..5 : x' = <<[i \in 1..n |-> k]>> /\ UNCHANGED fam
   \/ fam = "badnssai" /\ x = <<>> /\ \E n \in 0..3, r \in 0..4 : x' = <<[i \in 1..n |-> ((i + r) % 5) + 1]>> /\ UNCHANGED fam
@@ -48,7 +48,7 @@ GNext ==
   \/ fam = "rej" /\ x = <<>> /\ \E a \in 0..4, b \in 0..4, r \in {0, 3} : x' = <<RejList(a, r), RejList(b, r + 1)>> /\ UNCHANGED fam
   \/ fam = "rej" /\ x = <<>> /\ \E a \in RejM, b \in RejM : x' = <<<<a>>, <<b>>>> /\ UNCHANGED fam
   \/ fam = "tai" /\ x = <<>> /\ \E n \in 1..16, k \in 1..3, pat \in 1..3 : x' = <<BigTais(n, k, pat)>> /\ UNCHANGED fam
-  \/ fam = "tai" /\ x = <<>> /\ \E ts \in Seqs(TaiSmall, 2) : x' = <<ts>> /\ UNCHANGED fam
+  \/ fam = "tai" /\ x = <<>> /\ \E ts \in Seqs(TaiSmall, IF Big THEN 3 ELSE 2) : x' = <<ts>> /\ UNCHANGED fam
   \/ fam = "sal" /\ x = <<>> /\ \E p \in 1..3, al \in {0, 1}, n \in 1..16, a \in 1..4, pat \in {1, 2} :
         a <= n /\ x' = <<al, BigTais(n, 1, IF pat = 1 THEN 3 ELSE 1), a, pat, p>> /\ UNCHANGED fam
   \/ fam = "ladn" /\ x = <<>> /\ \E n \in 1..100, k \in 1..3 : x' = <<DnnOf(n, 7), BigTais(k, k, 3)>> /\ UNCHANGED fam
